@@ -26,10 +26,11 @@ import (
 // restart and the same observation.
 
 func historyUniverse() []hs.Blob {
+	// (the empty blob is part of both tiers: its index entry has size 0)
 	if vk.Thorough() {
-		return []hs.Blob{pSmall, pSchema, pSha256, pKiB2}
+		return []hs.Blob{pSmall, pEmpty, pSha256, pKiB2}
 	}
-	return []hs.Blob{pSmall, pSchema, pKiB2}
+	return []hs.Blob{pSmall, pEmpty, pKiB2}
 }
 
 type histOp struct {
